@@ -193,6 +193,14 @@ func modelMarshal(ex *Exec, fr *Frame, st *State, com *ssa.CallCommon, recv Val,
 	sort := ex.u.SortOf(pt.Elem())
 	m, _ := ex.u.MarshalFn(sort)
 	content := ex.load(p.P, st, "marshal")
+	// gogoproto stdtime fields: marshalling fails (MustMarshal panics) outside years 0001..9999
+	if info := ex.u.structs[sort]; info != nil {
+		for _, f := range info.Fields {
+			if f.Sort == "Time" {
+				ex.mayPanic(st, fmt.Sprintf("(validTime (%s %s))", f.Acc, content), "marshal-timestamp-range-"+f.Name, in)
+			}
+		}
+	}
 	return one(st, Val{T: fmt.Sprintf("(%s %s)", m, content)}), true
 }
 
